@@ -18,15 +18,16 @@ ENTRIES = [
 
 
 def run(ctx):
-    S.rule_sh1(ctx)
-    S.rule_sh2(ctx)
-    S.rule_ax1(ctx, [CORE, "geometry_tools/hyperbolic.py", PROJ])
-    P.rule_s1(ctx, ops=[(PROJ, "ProjectiveObject.reshape"),
+    ctx.do(S.rule_sh1)
+    ctx.do(S.rule_sh2)
+    ctx.do(S.rule_sh3)
+    ctx.do(S.rule_ax1, [CORE, "geometry_tools/hyperbolic.py", PROJ])
+    ctx.do(P.rule_s1, ops=[(PROJ, "ProjectiveObject.reshape"),
                         (PROJ, "ProjectiveObject.flatten_to_unit"),
                         (PROJ, "ProjectiveObject._construct_from_object"),
                         (PROJ, "Transformation.apply")])
-    P.rule_roles(ctx)
-    u1(ctx, ENTRIES, min_functions=10)
+    ctx.do(P.rule_roles)
+    ctx.do(u1, ENTRIES, min_functions=10)
     ctx.r.assume("that the values at each index equal the per-unit result "
                  "of the vectorised geometry is numerical and not decided; "
                  "NumPy shape semantics of expand_dims/squeeze/tile/@/.T are "
